@@ -11,7 +11,8 @@ Inductive terror :=
 | TESyntax
 | TEMismatchHelper (opened closed : option str) (line col : N)
 | TEMismatchDeco (opened closed : option str) (line col : N)
-| TEInvalidParam (s : str).
+| TEInvalidParam (s : str)
+| TEIo.                              (* file source could not be read *)
 
 Inductive cres (A : Type) :=
 | COk (a : A)
